@@ -50,8 +50,19 @@ def check(rep):
     for name, r, _ in readcheck.valid_files(rng, 6 if quick else 40):
         files.append((name, bytes(r.data)))
     # truncated files: I/O errors (after the stream has moved) interleaved with successes
-    for cut in (3, 7, 20, 45):
-        files.append(("truncated%d" % cut, files[-1][1][:-cut]))
+    import isogen as _iso
+    trs = [{"id": 1, "kind": "avc", "ts": 1000, "sizes": [9, 8, 7, 6, 5, 10], "chunks": [3, 3], "deltas": [10] * 6, "cts": None, "sync": None, "co64": False},
+           {"id": 2, "kind": "aac", "ts": 48000, "sizes": [4, 4, 4, 12], "chunks": [2, 2], "deltas": [1024] * 4, "cts": None, "sync": None, "co64": True}]
+    rr, _, _ = _iso.build_movie(trs, "moov_first")
+    whole = bytes(rr.data)
+    for cut in (3, 7, 13, 20):
+        files.append(("truncated%d" % cut, whole[:-cut]))
+    # a sample table that is too short for the last samples (stts covers 4 of 6): reads of samples 5, 6 fail after the seek
+    trs2 = [dict(trs[0])]
+    rr2, tr2x, nodes2 = _iso.build_movie(trs2, "moov_first")
+    stbl = nodes2[1].find("trak")[0].find("mdia")[0].find("minf")[0].find("stbl")[0]
+    stbl.items = [(_iso.stts([(4, 10)]) if (isinstance(b, _iso.Box) and b.typ == b"stts") else b) for b in stbl.items]
+    files.append(("short_stts", bytes(_iso.render(nodes2).data)))
     # fragmented movies, one of them with a track fragment that names a track the movie does not have
     import isogen
     tr2 = [{"id": 1, "kind": "avc", "ts": 1000}, {"id": 2, "kind": "aac", "ts": 48000}]
@@ -87,7 +98,7 @@ def check(rep):
             n = counts.get(tid, 0)
             calls = []
             for k in range(1, min(n, 12) + 1):
-                for bad in (0, n + 1, 2 ** 32 - 1):
+                for bad in (0, n + 1, 2 ** 32 - 1, n, max(1, n - 1)):
                     calls += [["rs", tid, k], ["rs", tid, bad], ["rs", tid, k + 1], ["off", tid, k], ["rs", 99, 1], ["rs", tid, k]]
             if calls:
                 sched_cases.append({"data": data, "calls": calls})
